@@ -128,21 +128,31 @@ func runC22(c *an.Ctx) {
 		c.Floor("R3", "call sites of writeKeyringFile", n, 3)
 		c.Add(!locks.Escapes(wf), "R3", "writer-not-a-value", wf, "writeKeyringFile is only called directly", "reference enumeration")
 		// writer: nil without a write iff no file configured; otherwise writes the configured file
+		okEncAppend := false
 		wr := an.CallsTo(wf, "os.WriteFile")
 		c.Add(len(wr) == 1, "R2", "writer:one-write", wf, "one os.WriteFile in the writer", "call enumeration")
 		for _, w := range wr {
 			a := an.CallOf(w).Args
 			c.Add(an.Path(a[0]) == "$0.config.KeyringFile", "R2", "writer:target", w, "the writer writes the configured keyring file", "argument path")
-			c.Add(strings.HasPrefix(an.Path(a[1]), "json.MarshalIndent(make:slice(len(memberlist.(*Keyring).GetKeys($0.config.MemberlistConfig.Keyring))),"), "R2", "writer:json-array", w, "the content is the JSON encoding of a []string with one entry per key ("+short(an.Path(a[1]))+")", "argument path")
+			keysP := "memberlist.(*Keyring).GetKeys($0.config.MemberlistConfig.Keyring)"
+			okArr := strings.HasPrefix(an.Path(a[1]), "json.MarshalIndent(make:slice(len("+keysP+")),")
+			if mi, isCall := an.Strip(a[1]).(*ssa.Extract); !okArr && isCall {
+				// the append form: an empty slice grown by one encoded key per index 0..len(keys)-1
+				if call, isC := mi.Tuple.(*ssa.Call); isC && an.IsCallTo(call, "json.MarshalIndent") {
+					okArr, okEncAppend = appendLoopOfEncodedKeys(wf, an.Strip(call.Call.Args[0]), keysP)
+				}
+			}
+			c.Add(okArr, "R2", "writer:json-array", w, "the content is the JSON encoding of a []string with one entry per key ("+short(an.Path(a[1]))+")", "argument path")
 			for _, r := range an.Returns(wf) {
 				if v := an.ResultValues(r); an.IsNilConst(v[0]) {
 					ok := an.Guarded(wf, r, an.EdgesImplying(wf, an.Cmp{L: "len($0.config.KeyringFile)", Op: "==", R: "c:0"})) ||
+						an.GuardedBy(wf, r, an.Cmp{L: "$0.config.KeyringFile", Op: "==", R: `c:""`}) ||
 						an.GuardedBy(wf, r, an.Cmp{L: an.Path(w.(ssa.Value)), Op: "==", R: "c:nil"})
 					c.Add(ok, "R2", "writer:nil-means-written", r, "the writer returns nil only when no file is configured or the write succeeded", "edge dominance per nil return")
 				}
 			}
 		}
-		okEnc := false
+		okEnc := okEncAppend
 		an.Instrs(wf, func(in ssa.Instruction) {
 			s, ok := in.(*ssa.Store)
 			if !ok {
@@ -417,4 +427,53 @@ func runC23(c *an.Ctx) {
 		ok := len(an.CallsTo(sk, "(*Query).respondWithMessageAndResponse")) == 1 && len(an.CallsTo(sk, "memberlist.(*Memberlist).SendToAddress")) == 0
 		c.Add(ok, "R3", "sendKeyResponse:via-checked-path", sk, "the list reply is sent through respondWithMessageAndResponse, which re-checks the size (C33.R3)", "call enumeration")
 	}
+}
+
+// appendLoopOfEncodedKeys: v is a slice that starts empty (make with length 0) and is grown, in a loop
+// whose index runs from 0 in steps of 1 below len(keys), by exactly base64.StdEncoding of keys[index] —
+// the append form of "entry i is the encoding of key i". Returns (shape ok, encoding ok).
+func appendLoopOfEncodedKeys(fn *ssa.Function, v ssa.Value, keysP string) (bool, bool) {
+	ph, ok := v.(*ssa.Phi)
+	if !ok || len(ph.Edges) != 2 {
+		return false, false
+	}
+	var mk *ssa.MakeSlice
+	var app *ssa.Call
+	for _, e := range ph.Edges {
+		switch x := e.(type) {
+		case *ssa.MakeSlice:
+			mk = x
+		case *ssa.Call:
+			if b, isB := x.Call.Value.(*ssa.Builtin); isB && b.Name() == "append" && x.Call.Args[0] == ssa.Value(ph) {
+				app = x
+			}
+		}
+	}
+	if mk == nil || app == nil {
+		return false, false
+	}
+	if n, isC := an.ConstInt(mk.Len); !isC || n != 0 {
+		return false, false
+	}
+	els := an.VarArgs(&app.Call)
+	if len(els) != 1 {
+		return false, false
+	}
+	enc, isCall := els[0].(*ssa.Call)
+	if !isCall || !strings.HasPrefix(an.Path(enc), "base64.(*Encoding).EncodeToString(g:StdEncoding,"+keysP+"[") {
+		return true, false
+	}
+	// the index of keys[...]: a counter from 0 by 1, bounded by len(keys) where the append happens
+	var idx *ssa.Phi
+	if ld, isLd := enc.Call.Args[1].(*ssa.UnOp); isLd {
+		if ia, isIA := ld.X.(*ssa.IndexAddr); isIA {
+			idx, _ = ia.Index.(*ssa.Phi)
+		}
+	}
+	if idx == nil || !unitStepFromZero(idx) {
+		return true, false
+	}
+	bounded := an.GuardedBy(fn, app, an.Cmp{L: an.Path(idx), Op: "<", R: "len(" + keysP + ")"})
+	// and the loop is left only through that bound: every key is encoded
+	return true, bounded
 }
